@@ -170,11 +170,14 @@ def snapNotes (line : String) : List String :=
   | "SNAP" :: "avl" :: ws =>
     match parseATree (ws.length + 1) ws with
     | some (t, []) =>
-      if avlWf t && !avlStrict t then
+      -- `shape-balance` (AVL balance of the structural heights) is what C18 names; the other notes describe the
+      -- relaxed-balance bookkeeping (stale stored height, routing node left with one child)
+      (if avlWf t && !t.shapeBalanced then ["NOTE avl shape-balance"] else []) ++
+      (if avlWf t && !avlStrict t then
         ["NOTE avl not-strict " ++ firstFailure
           [("stored-height", t.heightsOk), ("balance", t.balanced),
            ("routing-node-with-less-than-two-children", t.routingOk)]]
-      else []
+      else [])
     | _ => []
   | _ => []
 
@@ -198,7 +201,7 @@ def snapNotes (line : String) : List String :=
 #guard snapLine "SNAP avl N 4 3 1 N 1 1 1 E E E" == "WF avl abs=[1,4]"
 #guard snapNotes "SNAP avl N 4 2 1 N 1 1 1 E E E" == []
 #guard snapNotes "SNAP avl N 4 3 1 N 1 1 1 E E E" == ["NOTE avl not-strict stored-height"]
-#guard snapNotes "SNAP avl N 4 3 1 N 2 2 1 N 1 1 1 E E E E" == ["NOTE avl not-strict balance"]
+#guard snapNotes "SNAP avl N 4 3 1 N 2 2 1 N 1 1 1 E E E E" == ["NOTE avl shape-balance", "NOTE avl not-strict balance"]
 #guard snapNotes "SNAP avl N 4 2 0 N 1 1 1 E E E" == ["NOTE avl not-strict routing-node-with-less-than-two-children"]
 #guard snapNotes "SNAP list 1 1 1" == ["NOTE list marked-node-linked 1"]
 #guard snapNotes "SNAP list 1 0 1" == []
